@@ -624,7 +624,9 @@ func (c *pctx) builtin(t *rapid.T) string {
 			"if H then U else U end", "[H] | U", "(H) | U", "(H) as $y | U", "try (H) catch . | U", "limit(1; H) | U", "first(H) | U", "(H), U", "(H) // U", "reduce (H) as $y (0; U)", "[foreach (H) as $y (0; U; U)]",
 			"label $l | (H) | U", ".a[H:]? , U", "[path(H)?], U", "{a: (H)} | U", "{(H): (H)} | U", "def q(z): z; q(H) | U", "[.[]? | H] | U", "(H)? | U", "(H) as [$y] ?// $y | U", "if . then H else U end", "if . then H elif . then H else U end",
 			"if (. | not) then 1 elif H then U else U end", "try error catch (H) | U", "[(H), U]", "{a: U, b: (H), c: U}", "(H) as {(H): $y} | U", "[.[]? as {(H): $y} | U], U", "(. as {a: $y, (H): $z} | U), U", "H | U", "(H | U), U",
-			"def r: H; r, U", "def r(z): z | U; r(H)", "[range(2) | H | U], U", "@base64 \"\\(H)\" | U", "(H | ascii_downcase), U", "[H, U][1]", "(try (H | error) catch U), U", "isempty(H), U", "[limit(2; H, U)]", "(H) and U", "U + (H)", "(H) < U"})
+			"def r: H; r, U", "def r(z): z | U; r(H)", "[range(2) | H | U], U", "@base64 \"\\(H)\" | U", "(H | ascii_downcase), U", "[H, U][1]", "(try (H | error) catch U), U", "isempty(H), U", "[limit(2; H, U)]", "(H) and U", "U + (H)", "(H) < U",
+			// the keys of an optional index are bound before the term: not visible in the term
+			"{a: U}[H]?", "{a: U}.a[H:]?", "[{a: U}[H]?, U]", "{a: U, b: 1}[H]?.x?, U", "{a: U}[(H), \"b\"]?"})
 		var pre, h, u string
 		if rapid.Bool().Draw(t, "scopevar") {
 			v := pick(t, "scopename", []string{"$x", "$a"})
